@@ -991,3 +991,27 @@ def rule_read_n(ctx, f, rule="READ-N"):
         vecs = {mir.root_local(body, c.args[0]) if False else canon(body, [mir.op_local(c.args[0]), ["*"]])[0] for c in pushes}
         ret = mir.root_local(body, info[4][0]) if info[4] else None
         ctx.ob(rule, "read_commands:returns-the-pushed-vector", ret in vecs, "the Vec returned is the one the commands were pushed to", body.where)
+
+
+# ------------------------------------------------------------------------------------------ second configuration
+class Tagged:
+    """ctx proxy that prefixes every instance key (used to repeat the rules on K3 in the thorough tier)"""
+
+    def __init__(self, ctx, tag):
+        self._ctx = ctx
+        self._tag = tag
+
+    def __getattr__(self, name):
+        return getattr(self._ctx, name)
+
+    def ob(self, rule, key, ok, detail="", where=""):
+        return self._ctx.ob(rule, self._tag + key, ok, detail, where)
+
+    def floor(self, rule, what, n, minimum):
+        return self._ctx.floor(rule, self._tag + what, n, minimum)
+
+    def need(self, items, what, rule="ANCHOR"):
+        return self._ctx.need(items, self._tag + what, rule)
+
+    def one(self, items, what, rule="ANCHOR"):
+        return self._ctx.one(items, self._tag + what, rule)
